@@ -1,5 +1,6 @@
 """Reader for parsing a DiffX file into DOM objects."""
 
+from pydiffx.errors import DiffXParseError
 from pydiffx.reader import DiffXReader
 from pydiffx.sections import Section
 
@@ -103,7 +104,15 @@ class DiffXDOMReader(object):
             section_info (dict):
                 Information on the section from the streaming reader.
         """
-        section.meta = section_info['metadata']
+        metadata = section_info['metadata']
+
+        if not isinstance(metadata, dict):
+            raise DiffXParseError(
+                'Expected the metadata to be a JSON object, not %s'
+                % type(metadata).__name__,
+                linenum=section_info['line'])
+
+        section.meta = metadata
         self._set_content_options(section.meta_section,
                                   section_info['options'])
 
@@ -122,7 +131,15 @@ class DiffXDOMReader(object):
             section_info (dict):
                 Information on the section from the streaming reader.
         """
-        section.preamble = section_info['text']
+        text = section_info['text']
+
+        if not isinstance(text, str):
+            raise DiffXParseError(
+                'The preamble text could not be decoded, because no encoding '
+                'is specified for it or for any parent section',
+                linenum=section_info['line'])
+
+        section.preamble = text
         self._set_content_options(section.preamble_section,
                                   section_info['options'])
 
